@@ -10,6 +10,7 @@ import (
 	"os"
 	"path/filepath"
 	"sort"
+	"sync/atomic"
 
 	"github.com/biogo/biogo/morass"
 )
@@ -17,7 +18,17 @@ import (
 // IntT is an int-like element.
 type IntT int
 
-func (i IntT) Less(j interface{}) bool { return i < j.(IntT) }
+func (i IntT) Less(j interface{}) bool { lessHook(); return i < j.(IntT) }
+
+// LessHook, when set, is called at the start of every comparison the sorter asks of an element:
+// the harness's foothold inside the sort step of a background writer (C12).
+var LessHook atomic.Pointer[func()]
+
+func lessHook() {
+	if f := LessHook.Load(); f != nil {
+		(*f)()
+	}
+}
 
 // RecT is a struct element: equal keys with different payloads let the
 // checks detect duplication, loss or corruption of individual values.
@@ -27,7 +38,7 @@ type RecT struct {
 	Extra   int
 }
 
-func (r RecT) Less(j interface{}) bool { return r.Key < j.(RecT).Key }
+func (r RecT) Less(j interface{}) bool { lessHook(); return r.Key < j.(RecT).Key }
 
 // Cycle is one use cycle: push Keys, finalise, pull Pull values (-1: until
 // io.EOF), then Clear if Clear is set (always cleared when another cycle
